@@ -188,12 +188,15 @@ package libmem
 //@   requires a != nil && a.custom.ExpandZone == nil
 //@   modifies nothing
 
+//@ pure fits(a *Allocator, nodes NodeMask) bool = forall z NodeMask :: z in a.zones && (nodes == 0 || (z & nodes) != 0) ==> a.zoneFree(z) >= 0
 //@ func (*Allocator).checkOvercommit ints=bv64 tags=C06
-//@   requires a != nil
+//@   requires a != nil && a.masks != nil
 //@   modifies nothing
+//@   ensures[C07,C04] len(result0) == 0 ==> fits(a, nodes)
 //@ loop 0 in (*Allocator).checkOvercommit at "range a.zones"
 //@   modifies spill[*]
-//@   invariant newobj(zones) && newobj(spill)
+//@   invariant newobj(zones) && newobj(spill) && len(zones) >= 0
+//@   invariant[C07,C04] len(zones) > 0 || (forall z NodeMask :: seen(z) && (nodes == 0 || (z & nodes) != 0) ==> a.zoneFree(z) >= 0)
 
 //@ func (*Allocator).zoneShrinkUsage ints=bv64
 //@   requires txn(a) && nocustom(a)
@@ -222,8 +225,9 @@ package libmem
 //@    (forall id string :: jnew(a, id) ==> old(jnew(a, id)))
 
 //@ func (*Allocator).defaultHandleOvercommit ints=bv64
-//@   requires txn(a) && nocustom(a)
+//@   requires txn(a) && nocustom(a) && a.masks != nil
 //@   ensures[C06,C07] txpres(a)
+//@   ensures[C07,C04] result == nil ==> fits(a, nodes)
 //@ loop 0 in (*Allocator).defaultHandleOvercommit at "for {"
 //@   invariant txpres(a)
 //@ loop 1 in (*Allocator).defaultHandleOvercommit at "range allowedPrios"
@@ -236,7 +240,8 @@ package libmem
 //@   invariant txpres(a)
 
 //@ func (*Allocator).handleOvercommit ints=bv64
-//@   requires txn(a) && nocustom(a)
+//@   requires txn(a) && nocustom(a) && a.masks != nil
+//@   ensures[C07,C04] result == nil ==> fits(a, nodes)
 //@   modifies maps map[string]NodeMask, maps map[string]*Request, maps map[NodeMask]*Zone, comp Request.zone
 //@   ensures[C06,C07] txpres(a)
 
@@ -277,6 +282,7 @@ package libmem
 //@   ensures[C07] retErr == nil ==> jstrict(a) && (forall id string :: jnew(a, id) ==> id == req.id)
 //@   ensures[C07] retErr == nil ==> forall id string :: old(id in a.users) ==> id in a.users && (a.users[id] & old(a.users[id])) == old(a.users[id])
 //@   ensures[C07] retErr == nil ==> (req.zone & a.masks.nodes.normal) != 0
+//@   ensures[C07,C04] retErr == nil ==> exists z0 NodeMask :: z0 != 0 && (z0 & req.zone) == z0 && fits(a, z0)
 
 //@ func (*Allocator).release ints=bv64
 //@   requires idle(a) && req != nil && req.id in a.requests
@@ -384,3 +390,12 @@ package libmem
 //@   invariant forall id string :: (id in a.requests) == (old(id in a.requests) || (id == o.req.id && seen(id)))
 //@   invariant forall id string :: id in a.requests && !(id == o.req.id) ==> a.requests[id] == old(a.requests[id])
 //@ pure offerok_static(o *Offer) bool = o.req != nil && o.updates != nil && o.updates != o.a.users && o.req.id in o.updates && (forall id string :: id in o.updates ==> o.updates[id] != 0)
+
+// ---- capacity (C07/C04) ---------------------------------------------------------------------------------------
+// zoneFree(z) = capacity of the nodes of z minus the sizes of all requests confined to subsets of z. It is
+// used as the definition of "free capacity": an abstract (side-effect free) function of the allocator state.
+//@ func (*Allocator).zoneFree ints=bv64 abstract tags=C07,C04
+//@   requires a != nil && a.masks != nil
+//@   modifies nothing
+//@   reads comp Allocator.zones, comp Allocator.masks, comp Allocator.nodes, comp MaskCache.nodes, comp Node.capacity, comp Request.limit,
+//@         comp Zone.capacity, comp Zone.users, maps map[ID]*Node, maps map[NodeMask]*Zone, maps map[string]*Request, slices ID
